@@ -48,6 +48,9 @@ class ProxyFixMiddleware:
                 scope["client"] = (client, 0)
 
             if scheme is not None:
+                if scope["type"] == "websocket":
+                    # Proxies report the scheme of the opening request
+                    scheme = {"http": "ws", "https": "wss"}.get(scheme.lower(), scheme)
                 scope["scheme"] = scheme
 
             if host is not None:
